@@ -10,7 +10,8 @@ Live == {p \in Pids : proc[p].live}
 Done(p) == proc[p].result # None
 Failed(p) == Done(p) /\ ~proc[p].result[1].ok
 
-PendingTimeout(P) == /\ P.live /\ P.sel # None /\ P.result = None
+\* a timeout that can still fire: its select has started waiting (the clock may be capped by MaxTick)
+PendingTimeout(P) == /\ P.live /\ P.sel # None /\ P.result = None /\ P.sel[1].start # None
                      /\ \E i \in 1..Len(P.sel[1].srcs) : P.sel[1].srcs[i].k = "timeout"
 
 \* nothing is in flight, nothing is runnable, and no clock advance can change that
@@ -33,8 +34,11 @@ ExactlyOnce ==
 Settled == Quiescent => \A p, q \in Pids : Len(FromP(q, p)) = Len(obs.sent[p][q])
 
 \* at quiescence an await is judged against the global truth (nothing is in flight any more)
+\* ... and a timeout whose select never started its timer would never fire: that is a lost wake-up too
 ReadyQ(p, src) ==
-  IF src.k = "await" THEN Done(src.t) ELSE SrcReady(proc[p], src, now)
+  IF src.k = "await" THEN Done(src.t)
+  ELSE IF src.k = "timeout" THEN TRUE
+  ELSE SrcReady(proc[p], src, now)
 
 NoLostWakeup ==
   Quiescent =>
